@@ -111,7 +111,10 @@ LineCheck(i, tainted) ==
       g    == IF IsSwap(c) THEN SwapMap(pre, c)
               ELSE IF Renumbers(pre, c) THEN (IF relM THEN gM ELSE gH)
               ELSE GrowMap(pre, post)
-      drift == IF kern /\ Sane(post) /\ Strip(m) # Strip(post)
+      retDrift == kern /\ Sane(post) /\ IsDelete(c) /\ ln.ret # Void /\ Strip(m) = Strip(post)
+                  /\ (ln.ret # DeleteRetExpected(pre, c, post) \/ IterFrom(DelFlagsOf(m, c), m.ret) # ln.ret)
+      drift == IF retDrift THEN (IF PrintT(<<"VXDIFF", i, c.op, {"ret"}>>) THEN 1 ELSE 1)
+               ELSE IF kern /\ Sane(post) /\ Strip(m) # Strip(post)
                THEN (IF PrintT(<<"VXDIFF", i, c.op, {fld \in DOMAIN Strip(m) : Strip(m)[fld] # Strip(post)[fld]}>>) THEN 1 ELSE 1)
                ELSE 0
       inC  == Manifoldish(post) /\ Manifoldish(pre)
